@@ -313,6 +313,18 @@ theorem m2m_delitem_spec (s : M2M α) (k a x : α) (hk : hasKey k s.data = true)
   show x ∈ getSet a (erase k s.data) ↔ _
   rw [getSet_erase]; split <;> simp_all
 
+/-- `update(pairs)` / `update(mapping)` (and each `add` of it): the union with the pairs given -/
+theorem m2m_update_pairs_spec (s : M2M α) (ps : List (α × α)) (a x : α) :
+    x ∈ getSet a (s.updatePairs ps).data ↔ x ∈ getSet a s.data ∨ (a, x) ∈ ps :=
+  M2M.updatePairs_data s ps a x
+
+/-- the constructors: `ManyToMany(pairs)` yields exactly the pairs given, `ManyToMany(other)` exactly the pairs of
+    `other` (in fresh set objects: `hm2m_separation` / `hm2m_isolation`) -/
+theorem m2m_ctor_spec (ps : List (α × α)) (o : M2M α) (wo : o.WF) (a x : α) :
+    ((a, x) ∈ iteritems (M2M.empty.updatePairs ps : M2M α).data ↔ (a, x) ∈ ps) ∧
+    ((a, x) ∈ iteritems (M2M.empty.updateFrom o).data ↔ (a, x) ∈ iteritems o.data) :=
+  ⟨M2M.ctor_pairs ps a x, M2M.ctor_from wo a x⟩
+
 /-- `replace(k, nk)` renames `k` to `nk` in every pair, merging into pairs `nk` already has (the fixed code) -/
 theorem m2m_replace_spec (s : M2M α) (w : s.WF) (k nk a x : α) :
     x ∈ getSet a (s.replace k nk).data ↔ (a ≠ k ∧ x ∈ getSet a s.data) ∨ (a = nk ∧ x ∈ getSet k s.data) :=
